@@ -145,6 +145,14 @@ func checkHeader(t fataler, m mHeader, reuse *mHeader) {
 	if err := sameHeader(m, dec); err != nil {
 		t.Fatalf("decoded header differs from %s: %v", m, err)
 	}
+	// (the hash of a header does not depend on what was hashed before it, successfully
+	// or not: Hash of a header that cannot be encoded - an unset digest item - panics
+	// as documented, is recovered, and precedes the hash under test)
+	func() {
+		defer func() { _ = recover() }()
+		bad := &types.Header{ParentHash: common.Hash{0xde, 0xad}, Number: 7, Digest: types.Digest{types.NewDigestItem()}}
+		_ = bad.Hash()
+	}()
 	if got := dec.Hash(); got != wantHash {
 		t.Fatalf("Hash of decoded header %s: %s, BLAKE2b-256(encoding) = %s", m, got, wantHash)
 	}
